@@ -4134,7 +4134,7 @@ static const Token *findShadowed(const Scope *scope, const Variable& var, int li
     if (!scope)
         return nullptr;
     for (const Variable &v : scope->varlist) {
-        if (scope->isExecutable() && v.nameToken()->linenr() > linenr)
+        if (scope->isExecutable() && (v.nameToken()->linenr() > linenr || precedes(var.nameToken(), v.nameToken())))
             continue;
         if (v.name() == var.name())
             return v.nameToken();
